@@ -1,4 +1,5 @@
 import SaVerif.Gen.SqliteTypes
+import SaVerif.Gen.SqlitePk
 /-
 M-TYPES (SQLite part): transcription of lib/sqlalchemy/dialects/sqlite/base.py
   SQLiteDialect._resolve_type_affinity, SQLiteDialect._find_cols_in_sig
@@ -107,5 +108,24 @@ def findCols : Nat → Str → List Str
     else findCols fuel t
 
 def findColsInSig (s : Str) : List Str := findCols (s.length + 1) s
+
+/-! ### where SQLiteDDLCompiler renders the primary key
+
+Two sites decide it independently: `get_column_specification` adds an inline
+`PRIMARY KEY AUTOINCREMENT` to the column, `visit_primary_key_constraint` returns None
+(no table-level `PRIMARY KEY (...)`).  Both conditions are conjunctions of the same five
+facts about the column; the conjunct lists are regenerated from the source. -/
+
+/-- facts about a primary-key column: bit i of `a` = atom i
+    (0 primary_key, 1 table has sqlite_autoincrement, 2 single-column key, 3 Integer affinity, 4 no foreign key) -/
+def atomHolds (a : Nat) (i : Nat) : Bool := a.testBit i
+
+def conj (atoms : List Nat) (a : Nat) : Bool := atoms.all (atomHolds a)
+
+/-- the column gets the inline PRIMARY KEY -/
+def pkInline (a : Nat) : Bool := conj SaVerif.Gen.SqlitePk.inlineAtoms a
+
+/-- the table-level PRIMARY KEY constraint is rendered -/
+def pkTableLevel (a : Nat) : Bool := !conj SaVerif.Gen.SqlitePk.suppressAtoms a
 
 end SaVerif.SqliteReflect
